@@ -178,10 +178,23 @@ func mbFindCast(l *mbLib, an *mbAn) *mbCastFn {
 	// follow `return worker(...)` when the body is a single delegation
 	fd := entry
 	for hop := 0; hop < 3; hop++ {
-		if len(fd.Body.List) != 1 {
+		// the body is a delegation: `return worker(…)`, possibly preceded by
+		// plain definitions of locals (`at := span`)
+		if len(fd.Body.List) == 0 {
 			break
 		}
-		r, ok := fd.Body.List[0].(*ast.ReturnStmt)
+		plain := true
+		for _, st := range fd.Body.List[:len(fd.Body.List)-1] {
+			switch st.(type) {
+			case *ast.AssignStmt, *ast.DeclStmt:
+			default:
+				plain = false
+			}
+		}
+		if !plain {
+			break
+		}
+		r, ok := fd.Body.List[len(fd.Body.List)-1].(*ast.ReturnStmt)
 		if !ok || len(r.Results) != 1 {
 			break
 		}
